@@ -121,6 +121,7 @@ def c17_meshes():
     l1 = tile(rlo, rhi, [[], [], [4]])
     r2lo, r2hi = refine_region((0, 0, 3), (0, 0, 4))
     M.append(Mesh('3lev', 3, (2, 2, 4), [l0, l1, tile(r2lo, r2hi, [[], [], []])]))
+    M.append(Mesh('1lev-3box', 3, (6, 2, 2), [tile((0, 0, 0), (5, 1, 1), [[2, 4], [], []])]))
     return M
 
 
@@ -213,6 +214,13 @@ def cases():
             out.append({'label': '%s/g%d' % (m.name, ghost), 'mesh': m, 'ghost': ghost, 'layouts': layouts, 'geom': (i + ghost) % 3,
                         'int_line': (i + ghost) % 2 == 0, 'k': k})
             k += 1
+    # every on-disk order of three boxes in one state file (cyclic orders are not their own inverse), other subsets scattered
+    m3 = c17_meshes()[-1]
+    for j, lay in enumerate(families.all_layouts(3, 1 if tier == 'quick' else 2)):
+        layouts = {sub: families.scatter_layouts(m3, rnd, max_files=2) for sub in ('gradp', 'I_R', 'divU', 'p')}
+        layouts['state'] = [lay]
+        out.append({'label': '3box/state-layout%s' % (lay,), 'mesh': m3, 'ghost': 1 + j % 2, 'layouts': layouts, 'geom': j % 3, 'int_line': j % 2 == 1, 'k': k})
+        k += 1
     return out
 
 
